@@ -64,12 +64,12 @@ class Ctx:
         if not fl:
             self.inst(rule, "missing:" + path, False, None, "anchor definition %s not found in crate %s (renamed or removed): the rule cannot be evaluated" % (path, crate), nontrivial=False)
             raise AnchorMissing(path)
-        return self._prepared(c, fl[0])
+        return fl[0]
 
     def fn_opt(self, crate, path):
         c = self.facts.lib(crate)
         fl = c.fns.get(path)
-        return self._prepared(c, fl[0]) if fl else None
+        return fl[0] if fl else None
 
     def _prepared(self, c, f):
         """the function with new private single-caller helpers inlined and trivial re-bindings registered as aliases"""
@@ -134,7 +134,7 @@ def finish(ctx, t0, seed, explanation, assumptions, trusted=None, exhaustive=Non
         "not_analysed": ctx.not_analysed,
         "notes": ctx.notes,
         "facts": ctx.facts.info,
-        "analysed_crates": [{"crate": c.name, "file": c.fname, "functions": sum(len(v) for v in c.fns.values())} for c in ctx.facts.crates],
+        "analysed_crates": [{"crate": c.name, "file": c.fname, "functions": sum(len(v) for v in c.raw_fns.values())} for c in ctx.facts.crates],
         "known_findings_matched": [v["key"] for _, v in seen_known],
         "violating_keys": [v["key"] for v in real],
     }
